@@ -71,6 +71,16 @@ static void run_delayseq(Ctx& ctx, bool T) {
                 if (d != 0 && std::abs(d) < N) ctx.nontrivial();
                 ctx.note(d == 0 ? "delayseq d=0" : (std::abs(d) >= N ? "delayseq |d|>=N" : (d > 0 ? "delayseq delay" : "delayseq advance")));
                 if (!bitsame(got, want)) ctx.fail("delayseq", show(got), show(want), P().kv("kind", "value"));
+                // the same call with the array given as a temporary, as an expression result and as a moved-from copy (an overload
+                // that reuses the storage of an rvalue must shift exactly like the copying one), and the input must be untouched
+                arr_real g2 = delayseq(arr_real(x), d), g3 = delayseq(x * 1.0, d);
+                arr_real xc2 = x;
+                arr_real g4 = delayseq(std::move(xc2), d);
+                if (!bitsame(g2, want) || !bitsame(g3, want) || !bitsame(g4, want))
+                    ctx.fail("delayseq(rvalue)", show(!bitsame(g2, want) ? g2 : (!bitsame(g3, want) ? g3 : g4)), show(want), P().kv("kind", "value").kv("arg", "rvalue"));
+                arr_real x0(N);
+                for (int i = 0; i < N; ++i) x0[i] = i + 1;
+                if (!bitsame(x, x0)) ctx.fail("delayseq", "input modified", "unchanged", P().kv("kind", "input"));
                 GUARD_END("delayseq")
             }
 #ifdef VERIF_DELAYSEQ_CMPLX
@@ -83,6 +93,10 @@ static void run_delayseq(Ctx& ctx, bool T) {
                 if (d != 0 && std::abs(d) < N) ctx.nontrivial();
                 ctx.note("delayseq complex instantiation exercised");
                 if (!bitsame(got, want)) ctx.fail("delayseq", showc(got), showc(want), P().kv("kind", "value"));
+                arr_cmplx g2 = delayseq(arr_cmplx(x), d);
+                arr_cmplx xc2 = x;
+                arr_cmplx g4 = delayseq(std::move(xc2), d);
+                if (!bitsame(g2, want) || !bitsame(g4, want)) ctx.fail("delayseq(rvalue)", showc(!bitsame(g2, want) ? g2 : g4), showc(want), P().kv("kind", "value").kv("arg", "rvalue"));
                 GUARD_END("delayseq")
             }
 #endif
